@@ -17,7 +17,18 @@ def history_task(shard, first_tid, ntraces, seed, nvars_choices, steps,
             tid = first_tid + i
             s = seed * 100003 + tid
             nv = nvars_choices[tid % len(nvars_choices)]
-            tr = history.random_history(tid, s, nv, steps, profile=profile)
+            if profile == 'reorder':
+                tr = history.reorder_history(tid, s, nv, steps)
+            elif profile == 'reorder_many':
+                tr = history.reorder_history(tid, s, nv, steps, held_n=40)
+            elif profile == 'decl':
+                tr = history.decl_history(tid, s, steps)
+            elif profile == 'allfun':
+                import itertools
+                ps = list(itertools.permutations(history.ALL_NAMES[:nv]))
+                tr = history.allfun_reorder_trace(tid, s, nv, list(ps[tid % len(ps)]))
+            else:
+                tr = history.random_history(tid, s, nv, steps, profile=profile)
             f.write(tr.dumps() + '\n')
             fps |= checklib.event_fingerprints(tr.events)
             events += len(tr.events)
